@@ -12,7 +12,8 @@
                 and only the budget bounds the call
      Retry      the same command again, only after an unanswered one
      Sense      a new activation of the tag
-     Finish(r)  r = None, or [off, len, cap] inside the declared data area with len <= cap
+     Finish(r)  r = None, or [off, len, cap] inside the declared data area with len <= cap and cap not
+                more than what the area can store behind the NDEF TLV
    all under a command budget.  There is NO action for an exception: a recorded call that ends with one
    (or with the harness' watchdog) is rejected at that event.
 
@@ -33,7 +34,7 @@ VARIABLES call,         \* "idle" or the running call
           fin           \* last result
 mvars == <<call, asked, minoff, ncmd, nretry, unanswered, dirty, fin>>
 
-NoneRes == [none |-> TRUE, off |-> 0, len |-> 0, cap |-> 0]
+NoneRes == [none |-> TRUE, off |-> 0, len |-> 0, cap |-> 0, tlv |-> -1]
 MInit == call = "idle" /\ asked = {} /\ minoff = 0 /\ ncmd = 0 /\ nretry = 0 /\ unanswered = FALSE /\ dirty = FALSE
          /\ fin = NoneRes
 
@@ -68,7 +69,15 @@ Retry(ok, bud) == /\ call # "idle" /\ unanswered /\ Count(ok, bud)
 
 Sense == call # "idle" /\ UNCHANGED mvars
 
-InArea(r, lo, hi) == r.off >= lo /\ r.off + r.len <= hi /\ r.len <= r.cap /\ r.cap <= hi - lo
+\* TLV based tags (r.tlv = address of the NDEF TLV's T byte, -1 otherwise): what can be stored from there to
+\* the end of the area is the better of the 1 byte (at most 254) and the 3 byte length format
+Max2(a, b) == IF a > b THEN a ELSE b
+Min2(a, b) == IF a < b THEN a ELSE b
+Minus(a, b) == IF a > b THEN a - b ELSE 0
+Fits(room) == Max2(Min2(Minus(room, 2), 254), Minus(room, 4))
+CapFits(r, hi) == r.tlv < 0 \/ (r.tlv < r.off /\ r.cap <= Fits(Minus(hi, r.tlv)))
+InArea(r, lo, hi) == /\ r.off >= lo /\ r.off + r.len <= hi /\ r.len <= r.cap /\ r.cap <= hi - lo
+                     /\ CapFits(r, hi)
 Finish(r, lo, hi) == /\ call # "idle"
              /\ (r.none \/ InArea(r, lo, hi))
              /\ fin' = r /\ call' = "idle"
